@@ -2,7 +2,7 @@
    Model: Model/MessageM.v (to_wire = Message.to_wire with Renderer).  Proofs: Proofs/MessageSize.v *)
 From DV Require Import Base.Prelude Model.NameM Model.MessageM.
 From DV Require Import Proofs.MessageRender Proofs.MessageSize Proofs.MessagePad Proofs.MessageTrunc.
-From DV Require Import Proofs.MessageRead Proofs.MessageRoundtrip Proofs.MessageRoundtrip2 Proofs.MessageTruncParse.
+From DV Require Import Proofs.MessageRead Proofs.MessageRoundtrip Proofs.MessageRoundtrip2 Proofs.MessageRoundtrip3 Proofs.MessageTruncParse.
 Open Scope Z_scope.
 
 (* a rendered message never exceeds its effective limit (512 <= limit <= 65535 after the clamp) *)
@@ -51,15 +51,16 @@ Theorem trunc_prefix : forall m origin max_size request_payload pad w,
 Proof. exact trunc_prefix_lemma. Qed.
 Print Assumptions trunc_prefix.
 
-(* ... and it parses back to exactly that prefix message (well-formed ordinary message, no TSIG,
-   no origin, no padding - the hypotheses of C03's render_parse_partial) *)
-Theorem trunc_parses_partial : forall m max_size request_payload w,
-  WfMsg m -> mtsig m = None -> to_wire m None max_size request_payload true 0 = Ok w ->
+(* ... and it parses back to exactly that prefix message: same id, flags with TC as stated, EDNS state,
+   TSIG record, and per section the kept record sets (well-formed ordinary message, with or without
+   origin; _partial: no padding, and the dynamic-update forms are outside C03's render_parse_partial) *)
+Theorem trunc_parses_partial : forall o m max_size request_payload w,
+  org_ok o -> WfMsg o m -> wf_tsig m -> to_wire m o max_size request_payload true 0 = Ok w ->
   exists q1 q2 a1 a2 u1 u2 d1 d2 m',
     mq m = q1 ++ q2 /\ man m = a1 ++ a2 /\ mau m = u1 ++ u2 /\ mad m = d1 ++ d2 /\
     (q2 <> [] -> a1 = [] /\ u1 = [] /\ d1 = []) /\ (a2 <> [] -> u1 = [] /\ d1 = []) /\ (u2 <> [] -> d1 = []) /\
-    from_wire w None po0 = Ok m' /\
-    msg_equiv m' (cut_msg m (if cut_before q2 a2 u2 then Z.lor (mflags m) fTC else mflags m) q1 a1 u1 d1).
+    from_wire w o po0 = Ok m' /\
+    msg_equiv_t m' (cut_msg m (if cut_before q2 a2 u2 then Z.lor (mflags m) fTC else mflags m) q1 a1 u1 d1).
 Proof. exact trunc_parses_lemma. Qed.
 Print Assumptions trunc_parses_partial.
 
